@@ -566,7 +566,7 @@ def _oracle(ctx, case, opts, src, exc, mprog, mres):
 # --------------------------------------------------------------------------- generation
 
 
-def gen_direct(rng, n: int, refusal_every: int = 9) -> list[dict]:
+def gen_direct(rng, n: int, refusal_every: int = 8) -> list[dict]:
     cases = []
     for i in range(n):
         scheme = rng.choice(["clean", "clean", "odd", "odd", "odd", "collide"])
@@ -1049,17 +1049,17 @@ def _main(run: core.Run, ctx: Ctx, audit: dict) -> None:
         ctx.stats["witness_" + fid + ("_reproduced" if ctx.known[fid] > before else "_not_reproduced")] += 1
 
     # 3. generated protos
-    n_direct = run.size(150, 1200) * scale
-    n_script = run.size(40, 300) * scale
-    n_attr = run.size(40, 300) * scale
+    n_direct = run.size(104, 1200) * scale
+    n_script = run.size(30, 300) * scale
+    n_attr = run.size(24, 300) * scale
     k_opts_tie = 16
     k_oracle = run.size(16, 16)
     cases = gen_direct(rng, n_direct)
     scases, nrefused = gen_scripts(rng, n_script)
     ctx.stats["script_refused_by_converter"] = nrefused
     acases = gen_attr_functions(rng, n_attr)
-    shcases = gen_shapes(rng, run.size(30, 200) * scale)
-    lfcases = gen_local_functions(rng, run.size(8, 60) * scale)
+    shcases = gen_shapes(rng, run.size(20, 200) * scale)
+    lfcases = gen_local_functions(rng, run.size(6, 60) * scale)
     allcases = cases + scases + acases + shcases + lfcases
     for c in allcases[:3] + scases[:2]:
         run.sample({"kind": c["kind"], "meta": {k: v for k, v in c["meta"].items() if k != "src"},
